@@ -95,7 +95,7 @@ def main(tier):
     files = [p for p, n, rc, err in prod if n > 0]
     sp = common.fit_frag(common.transfer_specs(tier, seed, n_quick=42, n_thorough=300, dur_ms=15000, extra=False))
     sp = [s for i, s in enumerate(sp) if s["label"].endswith("/clean") or i % 4 == 0]
-    sp += common.dupspell_specs(tier, seed)
+    sp += common.dupspell_specs(tier, seed) + common.retype_specs(tier, seed)
     results = common.run_specs(sp, ["C10"])
     aux = vcheck.parallel(aux_events, [seed * 10 + i for i in range(8 if q else 64)])
     nsim = 0
